@@ -308,6 +308,23 @@ def oracle(ctx, ss, np, rng):
                 ctx.dist('oracle:timepar inside a distribution rejected'); continue
             if not close(got, want, 1e-9):
                 ctx.violation(f'ss.constant(v=ss.{kind}({v!r}, {u_!r})) in a parent with unit {pu_} and dt {pdt_} yields {got} per-step units; the parameter alone converts to {want}', W)
+    # a plain number given to an ALREADY INITIALISED time parameter of a module (pars.update after sim.init): the per-step value follows the new number
+    for simkw in (dict(unit='year', dt=0.5), dict(unit='day', dt=2.0, start='2000-01-01'), dict(unit='week', dt=1.0, start='2000-01-01')):
+        try:
+            sim = ss.Sim(n_agents=20, dur=3 * simkw['dt'], verbose=0, diseases=ss.SIS(), networks=ss.RandomNet(), **simkw); sim.init()
+            mod = sim.diseases.sis
+            for key_, newv in (('waning', 0.4), ('beta', 0.3)):
+                n += 1; ctx.dist('oracle:number into an initialised time parameter')
+                via = rng.choice(['module', 'sim'])
+                if via == 'module': mod.pars.update({key_: newv})
+                else: sim.pars.update({mod.name: {key_: newv}})
+                tp = mod.pars[key_]
+                fresh = type(tp)(newv, unit=tp.unit, parent_unit=mod.t.unit, parent_dt=float(mod.t.dt), self_dt=tp.self_dt).init()
+                got = float(np.atleast_1d(np.asarray(tp.values, dtype=float))[0]); want = float(np.atleast_1d(np.asarray(fresh.values, dtype=float))[0])
+                if float(tp.v) != newv or not close(got, want, 1e-12):
+                    ctx.violation(f'SIS.{key_} updated to {newv} after sim.init() (through the {via} parameters) in a {simkw} sim: v = {float(tp.v)}, per-step value {got}; a fresh {type(tp).__name__}({newv}) converts to {want}', dict(probe='post-init-number', par=key_, sim=simkw, via=via))
+        except Exception as E:
+            ctx.violation(f'updating a time parameter after sim.init() raised {type(E).__name__}: {E}', dict(probe='post-init-number', sim=simkw))
     ctx.cov['oracle_evaluations'] = n
 
 
